@@ -92,6 +92,32 @@ class Session:
             parser.cleanup()
         return parser
 
+    def feed_api(self, lines, ids, reopen=(), before_read=None):
+        """the way GDB mode drives the core: ConnectionManager.open_connection / message / close_connection with
+        connection ids chosen by the caller.  ids[i] is the id line i arrives on; it is opened with its first line;
+        at the indices in `reopen` the id is closed first and opened again (a wl_connection address used again)."""
+        from backends.libwayland_debug_output import parse
+        opened = {}
+        t = 0.0
+        for i, (line, cid) in enumerate(zip(lines, ids)):
+            if before_read is not None:
+                before_read(self, i)
+            if i in reopen and cid in opened:
+                self.cm.close_connection(t, cid)
+                del opened[cid]
+            self.events.append(('read', i))
+            _, msg = parse.message(line.strip())
+            t = msg.timestamp
+            if cid not in opened:
+                self.cm.open_connection(t, cid, (not msg.sent) if msg.name == 'get_registry' else None)
+                opened[cid] = True
+            self.cm.message(cid, msg)
+        if before_read is not None:
+            before_read(self, len(lines))
+        self.events.append(('eof', len(lines)))
+        for cid in opened:
+            self.cm.close_connection(t, cid)
+
     # ------------------------------------------------------------------
     def out_items(self, since=0):
         """[(event_index, parsed_line)] of the out stream"""
